@@ -7,6 +7,7 @@ import (
 	"sync"
 	"time"
 
+	"verif/corpus"
 	"verif/drive"
 	"verif/findings"
 
@@ -36,155 +37,12 @@ type crossStmt struct {
 	goSafe bool   // Go gives the same text the same meaning (model conformance)
 }
 
-const crossPrelude = `x := 5
-y := 3
-t := false
-s := "ab"
-u := "q"
-v := []int{1, 2}
-w := []string{"p"}
-z := []int{9}
-n := 0
-g := 10
-k0 := 1
-print("start", k0)
-func inc(a int) int {
-	return a + 1
-}
-func two(a int) (int, string) {
-	return a * 2, itoa(a)
-}
-func bump() int {
-	g++
-	return g
-}
-func setf(sl []int, i int, e int) {
-	sl[i] = e
-}
-func mk() []int {
-	m := []int{7, 8}
-	return m
-}
-func join(a string, b string) string {
-	return a + b
-}
-func flag(a int) bool {
-	return a > 3
-}
-func loopsum(k int) int {
-	acc := 0
-	for i := 0; i < k; i++ {
-		acc += i
-	}
-	return acc
-}
-func noisy(tag string) int {
-	print("noisy", tag)
-	return len(tag)
-}
-`
-
-const crossMid = `print("mid", x, y, t, s, u, n, g, len(v), len(w))
-`
-
-const crossEnd = `print("end", x, y, t, s, u, n, g, len(v), len(w))
-for vi, ve := range v {
-	print("v", vi, ve)
-}
-for wi, we := range w {
-	print("w", wi, we)
-}
-for zi, ze := range z {
-	print("z", zi, ze)
-}
-`
-
 func crossStmts() []crossStmt {
-	S := func(owner int, goSafe bool, name, text string) crossStmt {
-		return crossStmt{name: name, text: text, owner: owner, goSafe: goSafe}
+	var out []crossStmt
+	for _, st := range corpus.CrossStmts() {
+		out = append(out, crossStmt{name: st.Name, text: st.Text, owner: st.Owner, goSafe: st.GoSafe})
 	}
-	return []crossStmt{
-		// scalars and control flow
-		S(1, true, "x=x+y", "x = x + y"),
-		S(1, true, "x+=2", "x += 2"),
-		S(1, true, "x-=y", "x -= y"),
-		S(1, true, "x*=3", "x *= 3"),
-		S(1, true, "y=x/2", "y = x / 2"),
-		S(1, true, "x%=4", "x %= 4"),
-		S(1, true, "x++", "x++"),
-		S(1, true, "y--", "y--"),
-		S(1, true, "t=!t", "t = !t"),
-		S(1, true, "t=x<y", "t = x < y"),
-		S(1, true, "t=mixed-logic", "t = x == y || t && x > 2"),
-		S(1, true, "s+=c", `s += "c"`),
-		S(1, true, "s=u+s", "s = u + s"),
-		S(1, true, "u=itoa(x)+u", "u = itoa(x) + u"),
-		S(1, true, "swap-int", "x, y = y, x"),
-		S(1, true, "swap-str", "s, u = u, s"),
-		S(1, true, "x,s=len,itoa", "x, s = len(s), itoa(x)"),
-		S(1, true, "define-short", "a# := x * 2\nprint(\"a\", a#)"),
-		S(1, true, "define-var", "var b# int\nb# = y\nprint(\"b\", b#)"),
-		S(1, true, "define-two", "c#, d# := y, u\nprint(\"cd\", c#, d#)"),
-		S(1, true, "print-all", "print(x, y, t, s, u)"),
-		S(1, true, "print-empty", "print()"),
-		S(1, true, "if-else", "if x > y {\nx -= y\n} else {\ny -= x\n}"),
-		S(1, true, "if-chain", "if t {\ns += \"t\"\n} else if x > 3 {\ns += \"x\"\n} else {\ns += \"e\"\n}"),
-		S(1, true, "switch-tag", "switch x % 3 {\ncase 0:\ny += 1\ncase 1:\ny += 2\ndefault:\ny += 3\n}"),
-		S(1, true, "switch-tagless", "switch {\ncase x > y:\nu = \"gt\"\ncase x < y:\nu = \"lt\"\n}"),
-		S(1, true, "for3", "for i# := 0; i# < 2; i#++ {\nx += i#\n}"),
-		S(1, true, "for-cond", "for x < 8 {\nx += 3\n}"),
-		S(1, true, "for-ever-break", "for {\nx++\nif x > 6 {\nbreak\n}\n}"),
-		S(1, true, "for-continue", "for i# := 0; i# < 3; i#++ {\nif i# == 1 {\ncontinue\n}\ny += i#\n}"),
-		S(1, true, "for-down", "for i# := 2; i# > 0; i#-- {\ns += itoa(i#)\n}"),
-		// functions
-		S(2, true, "x=inc(x)", "x = inc(x)"),
-		S(2, true, "x,s=two(y)", "x, s = two(y)"),
-		S(2, true, "j,e:=two(x)", "j#, e# := two(x)\nprint(\"e\", j#, e#)"),
-		S(2, true, "inc(x)-stmt", "inc(x)"),
-		S(2, true, "x=inc(inc(y))", "x = inc(inc(y))"),
-		S(2, true, "x=bump()+bump()", "x = bump() + bump()"),
-		S(2, true, "y=bump()*x", "y = bump() * x"),
-		S(2, true, "s=join(s,u)", "s = join(s, u)"),
-		S(2, true, "s=join-nested", `s = join(join(u, "z"), itoa(inc(x)))`),
-		S(2, true, "t=flag(x)", "t = flag(x)"),
-		S(2, true, "y=loopsum(3)", "y = loopsum(3)"),
-		S(2, true, "print-noisy-twice", `print(noisy("a"), noisy("bb"))`),
-		S(2, true, "n=noisy+noisy", "n = noisy(s) + noisy(u)"),
-		S(2, true, "if-flag(inc(x))", "if flag(inc(x)) {\ns += \"F\"\n}"),
-		S(2, true, "for-cond-call", "for i# := 0; i# < inc(1); i#++ {\ng += i#\n}"),
-		S(2, true, "x,y=inc(y),inc(x)", "x, y = inc(y), inc(x)"),
-		S(2, true, "setf(v,0,x)", "setf(v, 0, x)"),
-		S(2, true, "v=mk()", "v = mk()"),
-		// slices and strings
-		S(3, true, "v[0]=x", "v[0] = x"),
-		S(3, false, "v[len(v)]=y", "v[len(v)] = y"),
-		S(3, false, "v[len(v)+1]=7", "v[len(v) + 1] = 7"),
-		S(3, false, "setf(v,len(v),bump())", "setf(v, len(v), bump())"),
-		S(3, false, "w[len(w)]=s", "w[len(w)] = s"),
-		S(3, true, "w[0]=u+w[0]", "w[0] = u + w[0]"),
-		S(3, true, "v=literal", "v = []int{x, y, 4}"),
-		S(3, true, "w=literal", "w = []string{s, u}"),
-		S(3, false, "alias-write", "al# := v\nal#[1] = 9"),
-		S(3, true, "swap-slices", "v, z = z, v"),
-		S(3, true, "z=v", "z = v"),
-		S(3, false, "z-grow", "z[len(z)] = x"),
-		S(3, true, "rotate-mixed", "x, v, z, y = y, z, v, x"),
-		S(3, false, "fresh-grow-assign", "nv# := []int{}\nnv#[0] = x\nv = nv#"),
-		S(3, false, "n=copy(v,literal)", "n = copy(v, []int{7, 8, 9})"),
-		S(3, true, "range-v", "for i#, e# := range v {\nx += e# * i#\n}"),
-		S(3, false, "range-s-blank", "for _, c# := range s {\nu = c# + u\n}"),
-		S(3, true, "range-w-index", "for i# := range w {\nw[i#] = w[i#] + itoa(i#)\n}"),
-		S(3, true, "u=s[0:1]", "u = s[0:1]"),
-		S(3, true, "u=s[1:]", "u = s[1:]"),
-		S(3, true, "u=s[:1]", "u = s[:1]"),
-		S(3, false, "u=s[len(s)-1]", "u = s[len(s) - 1]"),
-		S(3, true, "x=len+len+len", "x = len(s) + len(v) + len(w)"),
-		S(3, false, "t=s==u||s[0]==a", `t = s == u || s[0] == "a"`),
-		S(3, true, "t=len(v)>2", "t = len(v) > 2"),
-		S(3, true, "print-elements", "print(len(v), v[0], v[len(v) - 1], len(w), w[0])"),
-		S(3, true, "x=v[0]+v[1]", "x = v[0] + v[1]"),
-		S(3, true, "s=w[0]+w[last]", "s = w[0] + w[len(w) - 1]"),
-	}
+	return out
 }
 
 // crossCtx wraps a body: defs go to the top level (after the prelude), code replaces the body.
@@ -222,8 +80,6 @@ func crossCtxs() []crossCtx {
 		fn("func", "func ctx@() {\nBODY\n}\n", "ctx@()\n"),
 		fn("func-twice", "func ctx@() {\nBODY\n}\n", "ctx@()\nctx@()\n"),
 		fn("func-result", "func ctx@() int {\nBODY\nreturn x + 1\n}\n", "print(\"ret\", ctx@())\n"),
-		// a bare return nested in a block of a result-less function, before and after the body
-		fn("func-early-return", "func ctx@() {\nif k0 == 2 {\nreturn\n}\nBODY\nif k0 == 1 {\nreturn\n}\nprint(\"unreachable\")\n}\n", "ctx@()\n"),
 		// a value returned from inside a loop inside a branch
 		fn("func-nested-return", "func ctx@() int {\nif k0 == 1 {\nfor r@ := 0; r@ < 3; r@++ {\nBODY\nif r@ == 1 {\nreturn r@ + 40\n}\n}\n}\nreturn 0\n}\n", "print(\"ret\", ctx@())\n"),
 		fn("func-params", "func ctx@(p@ int, q@ string) int {\nBODY\nreturn p@ + len(q@)\n}\n", "print(\"ret\", ctx@(y, u))\n"),
@@ -249,7 +105,7 @@ func crossBuild(name string, stmts []crossStmt, ctxs []crossCtx) crossProg {
 		}
 		goSafe = goSafe && s.goSafe
 	}
-	body += crossMid
+	body += corpus.CrossMid
 	defs := ""
 	code := body
 	for k := len(ctxs) - 1; k >= 0; k-- { // innermost first
@@ -268,7 +124,7 @@ func crossBuild(name string, stmts []crossStmt, ctxs []crossCtx) crossProg {
 			goSafe = false
 		}
 	}
-	src := crossPrelude + defs + code + crossEnd
+	src := corpus.CrossPrelude + defs + code + corpus.CrossEnd
 	cp := crossProg{name: name, prog: tsparse.MustProg(src), owner: owner, goSafe: goSafe, nStmts: len(stmts)}
 	for _, c := range ctxs {
 		cp.ctx = append(cp.ctx, c.name)
